@@ -552,6 +552,7 @@ func lemmaHandOverThenCreate(rt *esdtNFTCreateRoleTransfer, cr *esdtNFTCreate, o
 //@   ensures[C01,C02] err == nil && !readFailed && snd != dst ==> val(St, snd, K) == val(old(St), snd, K) - ite(isNil(acntSnd), 0, q) && val(St, dst, K) == val(old(St), dst, K) + ite(isNil(acntDst), 0, q)
 //@   ensures[C01,C02] err == nil && !readFailed && snd == dst ==> val(St, snd, K) == val(old(St), snd, K) - ite(isNil(acntSnd), 0, q) + ite(isNil(acntDst), 0, q)
 //@   ensures[C01,C02,C05] err == nil && isNil(acntDst) && snd != dst ==> St[dst][K] == old(St)[dst][K]
+//@   ensures[C01,C15] err == nil && !readFailed && !isNil(acntSnd) && snd != dst ==> len(St[snd][K]) == 0 || dType(St[snd][K]) == 0
 //@   ensures old(readFailed) ==> readFailed
 //@   ensures[C01,C02,C05] err == nil && isNil(acntSnd) && snd != dst ==> St[snd][K] == old(St)[snd][K]
 //@   ensures[C04] err == nil && !readFailed && !vmInput.ReturnCallAfterError && !isNil(acntSnd) && snd != ESDTSC() ==> !frozen(old(St), snd, K) && !paused(old(St), K)
@@ -611,6 +612,32 @@ func lemmaESDTTransferDelivered(e *esdtTransfer, snd, dst vmcommon.UserAccountHa
 //@   ensures[C01,C10] emitted && err2 != nil && !failed && !readFailed && shardOf(b) != 4294967295 ==> (mustVerify(in2, 2) && !payable(b)) || (len(old(St)[b][K]) != 0 && dType(old(St)[b][K]) != 0) || (!in2.ReturnCallAfterError && b != ESDTSC() && (frozen(old(St), b, K) || paused(old(St), K)))
 //@   modifies St, failed, readFailed, loadFailed, in2.Arguments, new([]string), new([][]byte)
 
+// lemmaESDTTransferRefunded (C01, C04): the refund leg. After a sender-side debit, a delivery back to the sender that
+// is flagged return-after-error (same token and quantity, the original sender as recipient) restores the sender's
+// balance exactly and changes nothing else; it is not refused because the sender has meanwhile been frozen or the
+// token paused - the only world-state reason left is a recipient that is not payable for a call that must be verified.
+func lemmaESDTTransferRefunded(e *esdtTransfer, snd vmcommon.UserAccountHandler, in, back *vmcommon.ContractCallInput) (err1, err3 error) {
+	_, err1 = e.ProcessBuiltinFunction(snd, nil, in)
+	if err1 != nil {
+		return err1, nil
+	}
+	_, err3 = e.ProcessBuiltinFunction(nil, snd, back)
+	return nil, err3
+}
+
+//@ func lemmaESDTTransferRefunded
+//@   view q = beval(seq(in.Arguments[1]))
+//@   view a = seq(in.CallerAddr)
+//@   view b = seq(in.RecipientAddr)
+//@   view K = Kesdt(seq(in.Arguments[0]))
+//@   requires e != nil && locksFree() && !isNil(e.marshalizer) && !isNil(e.pauseHandler) && !isNil(e.payableHandler) && !isNil(e.shardCoordinator) && esdtPrefix(e.keyPrefix)
+//@   requires in != nil && back != nil && in != back && !isNil(snd) && sndIsCaller(snd, in) && WFvalues(St) && argBounds(in) && a != b
+//@   requires back.ReturnCallAfterError && seq(back.RecipientAddr) == seq(in.CallerAddr) && seq(back.CallerAddr) == seq(in.RecipientAddr) && back.CallValue != nil && bigval(back.CallValue) == 0
+//@   requires len(back.Arguments) == len(in.Arguments) && (len(in.Arguments) >= 2 ==> seq(back.Arguments[0]) == seq(in.Arguments[0]) && seq(back.Arguments[1]) == seq(in.Arguments[1]))
+//@   ensures[C01] err1 == nil && err3 == nil && !readFailed ==> val(St, a, K) == val(old(St), a, K) && onlyChanged(St, old(St), a, K)
+//@   ensures[C01,C04] err1 == nil && err3 != nil && !failed && !readFailed && shardOf(a) != 4294967295 ==> mustVerify(back, 2) && !payable(a)
+//@   modifies St, failed, readFailed, loadFailed
+
 // ---- ESDTNFTTransfer --------------------------------------------------------------------------------------------------------------------
 // Sender-side execution: CallerAddr == RecipientAddr, destination = Arguments[3].
 // Destination-side execution: acntSnd absent, Arguments[3] = encoded record emitted by a sender-side
@@ -654,6 +681,7 @@ func lemmaESDTTransferDelivered(e *esdtTransfer, snd, dst vmcommon.UserAccountHa
 //@   ensures[C05,C15] err == nil && !readFailed && senderSide ==> onlyChanged2(St, old(St), snd, Knft(tok, dMNonce(old0)), a3, Knft(tok, dMNonce(old0)))
 //@   ensures[C08] err == nil && !readFailed && senderSide && dMNonce(old0) == n && shardOf(a3) == selfShard && val(old(St), a3, Knft(tok, n)) + q > 0 ==> sameMeta(St[a3][Knft(tok, n)], old0)
 //@   ensures[C08] err == nil && !readFailed && senderSide && shardOf(a3) == selfShard && len(old(St)[a3][Knft(tok, dMNonce(old0))]) != 0 && dHasMeta(old(St)[a3][Knft(tok, dMNonce(old0))]) ==> dMHash(old(St)[a3][Knft(tok, dMNonce(old0))]) == dMHash(old0)
+//@   ensures[C08] err == nil && !readFailed && senderSide && dMNonce(old0) == n && snd != a3 && len(St[snd][Knft(tok, n)]) != 0 ==> sameMeta(St[snd][Knft(tok, n)], old0)
 //@   ensures[C08] err == nil && !readFailed && !senderSide && val(old(St), rcv, Knft(tok, dMNonce(a3))) + dVal(a3) > 0 ==> sameMeta(St[rcv][Knft(tok, dMNonce(a3))], a3)
 //@   ensures[C08] err == nil && !readFailed && !senderSide && len(old(St)[rcv][Knft(tok, dMNonce(a3))]) != 0 && dHasMeta(old(St)[rcv][Knft(tok, dMNonce(a3))]) ==> dMHash(old(St)[rcv][Knft(tok, dMNonce(a3))]) == dMHash(a3)
 //@   ensures[C10,C01] err == nil && senderSide && shardOf(a3) != selfShard ==> has(out.OutputAccounts, a3) && wfunc(seq(out.OutputAccounts[a3].OutputTransfers[0].Data)) == "ESDTNFTTransfer" && wcount(seq(out.OutputAccounts[a3].OutputTransfers[0].Data)) == len(vmInput.Arguments) && warg(seq(out.OutputAccounts[a3].OutputTransfers[0].Data), 0) == tok && warg(seq(out.OutputAccounts[a3].OutputTransfers[0].Data), 1) == seq(vmInput.Arguments[1]) && warg(seq(out.OutputAccounts[a3].OutputTransfers[0].Data), 2) == seq(vmInput.Arguments[2])
@@ -719,6 +747,46 @@ func lemmaESDTNFTTransferDelivered(e *esdtNFTTransfer, snd, dst vmcommon.UserAcc
 //@   ensures[C08] emitted && err2 == nil && dMNonce(old(old0)) == n && val(old(St), b, Kn) + q > 0 ==> sameMeta(St[b][Kn], old(old0))
 //@   ensures[C01,C10] emitted && err2 != nil && !failed && dMNonce(old(old0)) == n ==> (mustVerify(in2, 4) && !payable(b)) || (!in2.ReturnCallAfterError && b != ESDTSC() && (frozen(old(St), b, Kn) || frozenProps(dProps(old(old0))) || paused(old(St), Kesdt(tok)) || paused(old(St), Kn))) || (len(old(St)[b][Kn]) != 0 && dHasMeta(old(St)[b][Kn]) && dMHash(old(St)[b][Kn]) != dMHash(old(old0)))
 //@   modifies St, failed, readFailed, loadFailed, in2.Arguments, new([]string), new([][]byte)
+
+// lemmaESDTNFTTransferRefunded (C01, C04, C08): the refund leg of ESDTNFTTransfer. The emitted message, parsed by the real
+// parser and delivered back to the original sender flagged return-after-error, restores the sender's holding exactly
+// (same key, same metadata while anything is held) and changes nothing else; frozen / paused do not stop it.
+func lemmaESDTNFTTransferRefunded(e *esdtNFTTransfer, snd vmcommon.UserAccountHandler, in, back *vmcommon.ContractCallInput) (emitted bool, err1, perr, err3 error) {
+	out, err1 := e.ProcessBuiltinFunction(snd, nil, in)
+	if err1 != nil {
+		return false, err1, nil, nil
+	}
+	oa, ok := out.OutputAccounts[string(in.Arguments[3])]
+	if !ok {
+		return false, nil, nil, nil
+	}
+	_, args, perr := parsers.NewCallArgsParser().ParseData(string(oa.OutputTransfers[0].Data))
+	if perr != nil {
+		return true, nil, perr, nil
+	}
+	back.Arguments = args
+	_, err3 = e.ProcessBuiltinFunction(nil, snd, back)
+	return true, nil, nil, err3
+}
+
+//@ func lemmaESDTNFTTransferRefunded
+//@   view tok = seq(in.Arguments[0])
+//@   view n = beval(seq(in.Arguments[1])) % 18446744073709551616
+//@   view q = beval(seq(in.Arguments[2]))
+//@   view a = seq(in.CallerAddr)
+//@   view Kn = Knft(seq(in.Arguments[0]), beval(seq(in.Arguments[1])) % 18446744073709551616)
+//@   view old0 = St[seq(in.CallerAddr)][Knft(seq(in.Arguments[0]), beval(seq(in.Arguments[1])) % 18446744073709551616)]
+//@   requires e != nil && locksFree() && !isNil(e.marshalizer) && !isNil(e.pauseHandler) && !isNil(e.payableHandler) && !isNil(e.shardCoordinator) && !isNil(e.accounts) && esdtPrefix(e.keyPrefix)
+//@   requires costBound(e.funcGasCost) && costBound(e.gasConfig.DataCopyPerByte)
+//@   requires in != nil && back != nil && in != back && !isNil(snd) && sndIsCaller(snd, in) && WFvalues(St) && argBounds(in)
+//@   requires seq(in.CallerAddr) == seq(in.RecipientAddr) && seq(back.RecipientAddr) == seq(in.CallerAddr) && back.CallValue != nil && bigval(back.CallValue) == 0 && back.ReturnCallAfterError
+//@   requires len(in.Arguments) >= 4 && seq(back.CallerAddr) == seq(in.Arguments[3]) && shardOf(seq(in.Arguments[3])) != selfShard
+//@   requires faultFree && !readFailed
+//@   ensures[C01] emitted ==> perr == nil
+//@   ensures[C01] emitted && err3 == nil && dMNonce(old(old0)) == n ==> val(St, a, Kn) == val(old(St), a, Kn) && onlyChanged(St, old(St), a, Kn)
+//@   ensures[C08] emitted && err3 == nil && dMNonce(old(old0)) == n && val(old(St), a, Kn) > 0 ==> sameMeta(St[a][Kn], old(old0))
+//@   ensures[C01,C04] emitted && err3 != nil && !failed && dMNonce(old(old0)) == n ==> mustVerify(back, 4) && !payable(a)
+//@   modifies St, failed, readFailed, loadFailed, back.Arguments, new([]string), new([][]byte)
 
 // ---- MultiESDTNFTTransfer ---------------------------------------------------------------------------------------------------------------
 // Per-item contracts (one listed token): addNFTToDestination credits, transferOneTokenOnSenderShard
